@@ -412,8 +412,14 @@ class Function:
         """the sub-expression that decides the branch at the end of this block. clang reports the whole `A && B` as the
         condition of the block that evaluates only B (A was decided in an earlier block): descend to the right-most operand."""
         cond = self.nodes.get(blk.cond) if blk.cond is not None else None
+        elems = set(blk.elems)
         while cond is not None and cond.k == 'BinaryOperator' and cond.o in ('&&', '||') and len(cond.c) == 2:
-            cond = cond.c[1]
+            rhs = cond.c[1]
+            # descend only when this block really evaluates the right operand; a join block that merely tests the
+            # already computed value of the whole expression keeps the whole expression as its condition
+            if not any(x.i in elems for x in rhs.walk()):
+                break
+            cond = rhs
             while cond.k in ('CXXStaticCastExpr', 'CStyleCastExpr', 'CXXFunctionalCastExpr') and cond.c:
                 cond = cond.c[0]
         return cond
@@ -578,6 +584,7 @@ class Facts:
         self.classes = []
         self.enums = []
         self.dup_headers = []
+        self.vars = []
         self.n_lines = 0
         self.unit_summary = {}
         rx = re.compile(select) if isinstance(select, str) else None
@@ -616,6 +623,9 @@ class Facts:
                             self.classes.append(r)
                         elif r.get('rec') == 'enum':
                             self.enums.append(r)
+                        elif r.get('rec') == 'var':
+                            r['tree'] = Node(r['init'], None, None)
+                            self.vars.append(r)
                         elif r.get('rec') == 'summary':
                             self.unit_summary[u] = r
         self._byq = {}
